@@ -364,6 +364,7 @@ where
     pub pluseq: F<fn(List<E>, List<E>) -> List<E>>,
     pub indexgot: F<fn(List<E>, u64) -> Option<u64>>,
     pub push5: F<fn(List<E>, E, E, E, E, E)>,
+    pub littry: F<fn(bool, E) -> Option<List<E>>>,
     pub looplit: F<fn(List<E>, u64) -> u64>,
 }
 
@@ -447,6 +448,15 @@ fn indexgot_{x}(l: List[{ty}], i: u64) -> u64? {{
 }}
 "#
         ));
+        // a list literal with an element expression that can leave the function (not for the
+        // optional element types: `T??` is not a type a script can write)
+        if matches!(k, ElemKind::OptU64 | ElemKind::OptStr) {
+            s.push_str(&format!("fn littry_{x}(c: bool, a: {ty}) -> List[{ty}]? {{ Some([a, a, a]) }}\n"));
+        } else {
+            s.push_str(&format!(
+                "fn pick_{x}(c: bool, a: {ty}) -> {ty}? {{ if c {{ Some(a) }} else {{ None }} }}\nfn littry_{x}(c: bool, a: {ty}) -> List[{ty}]? {{ Some([a, a, pick_{x}(c, a)?]) }}\n"
+            ));
+        }
         match k.literals() {
             Some([(a, _), (b, _), (c, _)]) => s.push_str(&format!(
                 r#"
@@ -532,6 +542,7 @@ where
             pluseq: g!("pluseq"),
             indexgot: g!("indexgot"),
             push5: g!("push5"),
+            littry: g!("littry"),
             looplit: g!("looplit"),
         }
     }
@@ -960,6 +971,16 @@ where
                 }
                 None => Obs::Skipped,
             },
+            Op::LitTry { dst, v, some } => {
+                let e = E::from_m(v, &self.inner);
+                match f.littry.call(*some, e) {
+                    Some(l) => {
+                        self.set_slot(*dst, Some(l));
+                        Obs::Bool(true)
+                    }
+                    None => Obs::Bool(false),
+                }
+            }
             Op::PushMany { h, vals } => match self.h(*h, script) {
                 Some(l) => {
                     let mut it = vals.iter().map(|m| E::from_m(m, &self.inner));
